@@ -294,6 +294,10 @@ let () =
       match split_ws head with
       | [id; "kv"; kind; fail_at; mode] when kind = "plain" || kind = "batched" -> run_kv id kind fail_at mode body
       | id :: "crash" :: _ -> Printf.printf "%s crash ok\n" id
+      | [id; "tanio"; kind; mlfs; k] when (kind = "tan" || kind = "tanmux")
+          && (try int_of_string mlfs >= 0 with _ -> false)
+          && (k = "all" || k = "none" || (try int_of_string k >= 0 with _ -> false)) ->
+        Printf.printf "%s tanio ok\n" id
       | id :: kind :: args when String.length kind >= 3 && String.sub kind 0 3 = "tan" -> run_tan id kind args body
       | id :: _ -> Printf.printf "%s badcase\n" id
       | [] -> ()
